@@ -22,20 +22,22 @@ THEOREMS = ['Props.C12.' + t for t in [
     'methods_agree', 'all_columns_hold_answer', 'plain_agrees_with_exhaustive', 'quadtree_agrees_or_none_partial',
     'quadtree_partition', 'quadtree_root', 'sub_rectangles_cover', 'sub_rectangles_inside',
     'quadtree_leaf_contains_point', 'quadtree_leaf_exists', 'search_wave_fuel_suffices', 'quadtree_search_complete_partial',
+    'quadtree_search_complete_rectangular', 'quadtree_agrees_with_plain_rectangular', 'rectangular_columns_form_lattice',
     'block_at_point_spec', 'block_reported_is_in_found_column', 'block_at_point_in_layer', 'block_at_point_raised_surface',
     'block_at_point_none_outside', 'block_at_point_none_above_or_below', 'reported_block_contains_point_partial',
     'containing_block_is_the_reported_one',
     'track_points_on_line', 'track_points_on_column', 'track_sorted_by_distance', 'track_no_column_twice',
     'track_abut_at_shared_edge', 'track_lengths_partial', 'track_lists_crossed_column_partial',
     'track_merges_only_close_crossings', 'track_crossings_direction_independent', 'track_reverse_partial']]
-LEVEL_TEXT = ('Proof (partial): 35 Lean theorems, no sorry, about an exact-rational executable model of in_polygon / rectangles / quadtree / '
+LEVEL_TEXT = ('Proof (partial): 37 Lean theorems, no sorry, about an exact-rational executable model of in_polygon / rectangles / quadtree / '
               'column_containing_point (all search aids) / layer and block location: every reported column contains the point for every aid '
               'combination; a point outside every column gives None; in_polygon implies in-bounding-rectangle for every polygon (crossing parity, '
               'unconditional after the repair of in_polygon); under UniqueAt plain search = exhaustive search = search with any guess / bounding '
               'rectangle or polygon holding the point / column subset holding the answer; with a quadtree the result is the same column or None, and is that column whenever it is reachable in the neighbour graph that search_wave explores (BFS completeness; hypothesis evaluated on every explored point); '
               'the quadtree constructor partitions elements among the four sub-rectangles at every node and leaf(pos) has bounds containing pos; '
               'the reported block is characterised (layer logic, raised surface, None above/below/outside) and is the unique block containing the '
-              'point at or below ground level. PARTIAL: the planar half of quadtree completeness (reachability holds when the segment centre-point stays in the domain) is not proved '
+              'point at or below ground level. quadtree_search_complete_rectangular: on a rectangular lattice (Lattice: bounding boxes of the columns are the cells of a full nx x ny lattice with monotone grid lines, column i+nx*j is cell (i,j), centres in their cells, side-sharing cells are neighbours) with the tree column_quadtree builds over all columns in bounds covering the lattice, the quadtree search with any guess / bounds holding the point returns the containing column outright (planar step proved: the row-then-column walk from a leaf element only visits cells whose boxes meet the leaf rectangle). quadtree_agrees_with_plain_rectangular: hence on such lattices quadtree search (with any guess) = plain search at every point with UniqueAt, inside or outside the grid. rectangular_columns_form_lattice: the bounding-box clause of Lattice is derived for columns that are axis-aligned rectangles (all nodes in the cell, the two extreme corners among them, any node order). '
+              'PARTIAL: the planar half of quadtree completeness for non-lattice geometries (irregular / triangulated / refined grids: reachability when the segment centre-point stays in the domain) is not proved '
               '(false for domains with holes: witness kept as an example); block_contains_point for the reported block needs z <= ground level (the real function disagrees under a raised surface); '
               'column_track (exact-rational model Model/Track.lean): proved that every entry/exit point is on the line (parameter in the accepted '
               '[-1e-9, 1+1e-9] band) and on an edge of / inside its column, the track is sorted by entry distance with no column twice, the '
